@@ -400,9 +400,15 @@ fn rand_text_file(rng: &mut Rng) -> Vec<u8> {
             if rng.chance(1, 4) {
                 out.push(b' ');
             }
-            match rng.below(4) {
+            match rng.below(5) {
                 0 => out.extend_from_slice(format!("{}", rng.range(-99, 999)).as_bytes()),
                 1 => {}
+                4 if rng.chance(1, 3) => {
+                    // a long field: line ends land on every offset modulo the sizes of
+                    // read-ahead buffers
+                    let n = rng.range(40, 140) as usize;
+                    out.extend(std::iter::repeat_n(b'x', n));
+                }
                 _ => out.extend_from_slice(rng.pick(&["ab", "Hello", "x y", "q", "Z9"]).as_bytes()),
             }
             if rng.chance(1, 5) {
@@ -661,6 +667,8 @@ fn gen_file_program(rng: &mut Rng, exists: &mut BTreeSet<String>) -> Scenario {
                     }
                     if rng.chance(1, 3) {
                         items.push(PItem::E(Expr::Int(rng.range(-99, 999) as i32)));
+                    } else if rng.chance(1, 8) {
+                        items.push(PItem::E(Expr::Str("y".repeat(rng.range(40, 140) as usize))));
                     } else {
                         items.push(PItem::E(Expr::Str(
                             rng.pick(&["ab", "Hello", "q", "Z9", "x y"]).to_string(),
@@ -735,6 +743,23 @@ fn gen_file_program(rng: &mut Rng, exists: &mut BTreeSet<String>) -> Scenario {
                     main.push(ids.st(StmtKind::Close(vec![])));
                     abs.open.clear();
                     random_open = None;
+                } else if rng.chance(1, 3) {
+                    // a list of handles, open or not
+                    let n = 2 + rng.below(2);
+                    let mut hs = vec![];
+                    for _ in 0..n {
+                        let h = rng.range(1, 3) as i32;
+                        if !hs.contains(&h) {
+                            hs.push(h);
+                        }
+                    }
+                    for h in &hs {
+                        abs.open.remove(h);
+                        if random_open == Some(*h) {
+                            random_open = None;
+                        }
+                    }
+                    main.push(ids.st(StmtKind::Close(hs)));
                 } else {
                     let h = rng.range(1, 3) as i32;
                     main.push(ids.st(StmtKind::Close(vec![h])));
